@@ -4,6 +4,9 @@
 //! inspired by frameworks like log4j/logback and log4rs, while leveraging the
 //! `tracing` ecosystem for instrumentation and structured logging.
 
+// `excsn_fibre_verif` is a verification-only cfg passed via RUSTFLAGS.
+#![allow(unexpected_cfgs)]
+
 /// Prints library chatter to stderr only when `FIBRE_LOGGING_VERBOSE` is set.
 /// Errors and warnings are printed unconditionally (directly via `eprintln!`).
 macro_rules! vlog {
